@@ -333,7 +333,8 @@ fn expected_entry<'a>(doc: &'a CoreDocument, map: &RelMap, r: &Value) -> Option<
     "vm" => doc.verification_method().get(idx - 1),
     rel => match rel_set(doc, rel_idx(map, rel)).get(idx - 1) {
       Some(MethodRef::Embed(m)) => Some(m),
-      _ => tool_error("spec predicted an embedded entry where the real document has none"),
+      // the real document deviates from the model here; under `guarded` this surfaces as a mismatch of the case
+      _ => panic!("the model predicts an embedded method at {rel}[{idx}] where the real document has none"),
     },
   }
 }
